@@ -145,7 +145,7 @@ def _enum(acc, shard, nshards, seed, tier, labels="ab", length=4):
 
 
 LABEL_POOL = ["20minutes", "2019", "3D", "example", "EXAMPLE", "Example", "com", "COM", "co", "uk", "é", "xn--9ca", "XN--9CA", "www", "a", "b",
-              "münchen", "xn--mnchen-3ya", "Xn--Mnchen-3ya", "fr", "blog", "m", "x-y", "中文", "xn--fiq228c"]
+              "münchen", "xn--mnchen-3ya", "Xn--Mnchen-3ya", "fr", "blog", "m", "x-y", "中文", "xn--fiq228c", "straße", "strasse", "νέος", "νέοσ"]
 
 
 def _strategy(tier):
